@@ -448,14 +448,18 @@ where
                 odd_length,
                 charset_override,
             } => {
-                let src = src.take().unwrap();
-
                 // look up transfer syntax
+                // (before taking the reader, so that the collector
+                // is not left without one if the look-up fails)
                 let ts = ts_index
                     .get(ts_uid)
                     .context(UnrecognizedTransferSyntaxSnafu {
                         ts_uid: ts_uid.to_string(),
                     })?;
+
+                // the reader is gone if a previous attempt
+                // to create the parser has failed
+                let src = src.take().context(PrematureEndSnafu)?;
 
                 let mut options = LazyDataSetReaderOptions::default();
                 options.odd_length = *odd_length;
